@@ -912,3 +912,31 @@ func first(a, _ []byte) []byte { return a }
 //@     invariant stackOK(q) && 0 <= i && i <= 256
 //@   loop 5 (i)
 //@     invariant stackOK(q) && 0 <= i && i <= 256
+
+//@ func filter$1
+//@   opt casts on
+//@   requires liveRef(root) && HeapOKN() && LinkedLive()
+//@   ensures[pure] frame()
+//@   loop 1 (q)
+//@     invariant stackOK(q)
+//@   loop 2 (i)
+//@     invariant stackOK(q) && 0 - 1 <= i && i < n4.childrenLen
+//@   loop 3 (i)
+//@     invariant stackOK(q) && 0 - 1 <= i && i < n16.childrenLen
+//@   loop 4 (i)
+//@     invariant stackOK(q) && 0 - 1 <= i && i <= 255
+//@   loop 5 (i)
+//@     invariant stackOK(q) && 0 - 1 <= i && i <= 255
+
+// lowestCommonParent: byte-directed descent. Rung 1: safety, purity, and the result is a
+// live well-typed reference of the tree (what filter requires).
+//@ func lowestCommonParent@{alpha,collation}
+//@   opt kind $KIND
+//@   opt casts on
+//@   opt extent on
+//@   requires root.pointer != nil && liveRef(root) && HeapOK_$KIND() && LinkedLive() && leafT() == leafT()
+//@   ensures[live] result.pointer != nil && liveRef(result)
+//@   assigns nothing
+//@   loop 1 (depth)
+//@     invariant 0 <= depth && depth <= len(prefix) && n.pointer != nil && liveRef(n)
+//@     decreases len(prefix) - depth
